@@ -73,4 +73,35 @@ REFACTORS = [
          "        self.reference_y = scale * self.reference_y\n        self.y = scale * self.y\n        self.y_scale *= scale\n")]),
     dict(id="r-interpolate-dispatch-dict", props=["C20", "C09"], edits=[
         (P, "    raise ValueError(f\"Unknown interpolation method: {method}\")", "    raise ValueError('method must be one of linear, constant, cubic, spline')")]),
+    dict(id="r-flock-serialised-downloads", props=["C19"], edits=[
+        (B, "        os.makedirs(dataset_dir, exist_ok=True)\n        with TemporaryDirectory(dir=dataset_dir) as tmp_dir:\n",
+         "        os.makedirs(dataset_dir, exist_ok=True)\n        import fcntl\n"
+         "        lock_file = open(path.join(dataset_dir, '.lock'), 'a')\n        fcntl.flock(lock_file, fcntl.LOCK_EX)\n"
+         "        with TemporaryDirectory(dir=dataset_dir) as tmp_dir:\n"),
+        (B, "            os.rename(dataset_tmp_file_path, dataset_file_path)\n",
+         "            os.rename(dataset_tmp_file_path, dataset_file_path)\n"
+         "        fcntl.flock(lock_file, fcntl.LOCK_UN)\n        lock_file.close()\n")]),
+    dict(id="r-stage-in-system-tmp-publish-atomically", props=["C19", "C18"], edits=[
+        (B, "        with TemporaryDirectory(dir=dataset_dir) as tmp_dir:\n", "        with TemporaryDirectory(prefix='traffic-weaver-') as tmp_dir:\n"),
+        (B, "            os.rename(dataset_tmp_file_path, dataset_file_path)\n",
+         "            import tempfile\n            fd, staged = tempfile.mkstemp(dir=dataset_dir, prefix='tmp-publish-')\n"
+         "            os.close(fd)\n            shutil.copyfile(dataset_tmp_file_path, staged)\n"
+         "            os.replace(staged, dataset_file_path)\n")]),
+    dict(id="r-urlopen-streaming", props=["C19", "C18"], edits=[
+        (B, "from urllib.request import urlretrieve\n", "from urllib.request import urlopen\n"),
+        (B, "            urlretrieve(remote.url, file_path)\n",
+         "            with urlopen(remote.url) as response, open(file_path, 'wb') as out:\n"
+         "                shutil.copyfileobj(response, out)\n")]),
+    dict(id="r-retry-backoff-with-jitter", props=["C19"], edits=[
+        (B, "            time.sleep(delay)\n", "            import random\n            time.sleep(delay * (1.0 + random.random() / 4))\n")]),
+    dict(id="r-noise-private-generator-seeded-from-global", props=["C15", "C09"], edits=[
+        (P, "    noise = np.random.normal(loc=0, scale=std_n, size=a.shape)",
+         "    rng = np.random.default_rng(np.random.randint(0, 2 ** 31 - 1))\n    noise = rng.normal(loc=0, scale=std_n, size=a.shape)")]),
+    dict(id="r-inprocess-memo-of-cache-reads", props=["C19", "C18"], edits=[
+        (B, "    if dataset is None:\n        dataset = pickle.load(open(dataset_file_path, \"rb\"))\n",
+         "    if dataset is None:\n        st_ = os.stat(dataset_file_path)\n"
+         "        key_ = (dataset_file_path, st_.st_ino, st_.st_mtime_ns, st_.st_size)\n"
+         "        if key_ not in _MEMO:\n            _MEMO.clear()\n            _MEMO[key_] = pickle.load(open(dataset_file_path, \"rb\"))\n"
+         "        dataset = _MEMO[key_].copy()\n"),
+        (B, "logger = logging.getLogger(__name__)\n", "logger = logging.getLogger(__name__)\n_MEMO = {}\n")]),
 ]
